@@ -423,7 +423,7 @@ async fn actor_run(l1: &Layout, pre: &[Consistency], l2: &Layout, st: &mut Stats
 
 pub fn run(tier: Tier) -> i32 {
     let mut report = Report::new("C15", tier, "model_checking");
-    let (max_dcs, max_nodes) = tier.pick((3, 3), (4, 4));
+    let (max_dcs, max_nodes) = tier.pick((3, 3), (4, 5));
 
     // ---- pure level
     let mut work: Vec<(Layout, SocketAddr)> = Vec::new();
